@@ -627,7 +627,7 @@ def run(ctx):
     def neg_fs_steps():      # without the end case the transcription is NOT the proved algorithm
         cfg = write_cfg(ctx.scratch / 'fs_neg2.cfg', dict(Degrees={1}, BMax=2, MaxSpans=2, NoEndCase=True),
                         properties=['StepsAsProved'])
-        ctx.expect_violation('FindSpanPC', cfg, invariant='StepsAsProved', workers=1)
+        ctx.expect_violation('FindSpanPC', cfg, invariant='action-property-of-FindSpanProof', workers=1)
 
     with ThreadPoolExecutor(4) as ex:
         tl = ex.submit(run_tlaps, ctx, 'FindSpanProof',
